@@ -37,6 +37,15 @@ func main() {
 	hx.Init()
 	scratch := os.Getenv("VERIF_SCRATCH")
 	hx.Cases(func(c map[string]any) map[string]any {
+		t0 := time.Now()
+		out := one(c, scratch)
+		out["ms"] = time.Since(t0).Milliseconds()
+		return out
+	})
+}
+
+func one(c map[string]any, scratch string) map[string]any {
+	{
 		if c["mode"] == "raw_twice" {
 			// the raw mount sequence of the launcher, as a root caller without user namespace and without callback (the child shares the
 			// launcher's memory until it execs), started three times with the same prepared table
@@ -155,7 +164,96 @@ func main() {
 		}
 		b = b.FilterNotExist()
 		args := append([]string{"/vb/probe_target", "fsprobe"}, strs(c["probe"])...)
+		if mod := strs(c["modify"]); len(mod) > 0 {
+			// first the modifications of objects that exist below the mounts (and which proc instance is shown), then the FS probe
+			args = append(append(append([]string{"/vb/probe_fsmodify"}, mod...), "--"), args...)
+		}
 		out := map[string]any{"kept": len(b.Mounts)}
+		// the output of the two probes: the line of probe_fsmodify (if it ran) and the line of the FS probe
+		split := func(text string) {
+			text = strings.TrimSpace(text)
+			if len(strs(c["modify"])) > 0 {
+				first, rest, _ := strings.Cut(text, "\n")
+				out["modify"], text = strings.TrimSpace(first), strings.TrimSpace(rest)
+			}
+			out["probe"] = text
+		}
+		if c["runner"] == "raw" {
+			// the launcher (pkg/forkexec) driven directly: the raw in-child mount sequence under the caller's choice of namespaces,
+			// identity mapping and privilege dropping (runner/unshare fixes one such choice)
+			root, err := os.MkdirTemp(scratch, "rawroot")
+			if err != nil {
+				return map[string]any{"harness_err": err.Error()}
+			}
+			defer os.RemoveAll(root)
+			mt, err := b.Build()
+			if err != nil {
+				return map[string]any{"harness_err": "build: " + err.Error()}
+			}
+			nsflag := map[string]uintptr{"mnt": unix.CLONE_NEWNS, "user": unix.CLONE_NEWUSER, "pid": unix.CLONE_NEWPID, "uts": unix.CLONE_NEWUTS,
+				"ipc": unix.CLONE_NEWIPC, "net": unix.CLONE_NEWNET, "cgroup": unix.CLONE_NEWCGROUP}
+			var flags uintptr
+			for _, n := range strs(c["namespaces"]) {
+				f, ok := nsflag[n]
+				if !ok {
+					return map[string]any{"harness_err": "namespace " + n}
+				}
+				flags |= f
+			}
+			if flags&unix.CLONE_NEWNS == 0 {
+				return map[string]any{"harness_err": "a pivoted root without a mount namespace would rearrange the harness's own mounts"}
+			}
+			buf, _ := pipe.NewBuffer(1 << 20)
+			null, _ := os.Open("/dev/null")
+			defer null.Close()
+			r := &forkexec.Runner{Args: args, Env: []string{}, CloneFlags: flags, Mounts: mt, PivotRoot: root, WorkDir: "/",
+				Files: []uintptr{null.Fd(), buf.W.Fd(), buf.W.Fd()}, DropCaps: c["drop_caps"] == true, NoNewPrivs: c["no_new_privs"] == true,
+				SyncFunc: func(pid int) error {
+					mi, _ := os.ReadFile(fmt.Sprintf("/proc/%d/mountinfo", pid))
+					out["mountinfo"] = string(mi)
+					return nil
+				}}
+			if flags&unix.CLONE_NEWUTS != 0 {
+				r.HostName, r.DomainName = "v", "v"
+			}
+			if id, ok := c["id_inside"].(float64); ok && flags&unix.CLONE_NEWUSER != 0 {
+				r.UIDMappings = []syscall.SysProcIDMap{{ContainerID: int(id), HostID: os.Geteuid(), Size: 1}}
+				r.GIDMappings = []syscall.SysProcIDMap{{ContainerID: int(id), HostID: os.Getegid(), Size: 1}}
+			}
+			pid, err := r.Start()
+			buf.W.Close()
+			if err != nil {
+				<-buf.Done
+				out["started"], out["start_err"] = false, err.Error()
+				split(buf.Buffer.String())
+				return out
+			}
+			done := make(chan struct{})
+			go func() {
+				select {
+				case <-done:
+				case <-time.After(60 * time.Second):
+					syscall.Kill(pid, syscall.SIGKILL)
+				}
+			}()
+			var ws syscall.WaitStatus
+			for {
+				if _, err = syscall.Wait4(pid, &ws, 0, nil); err != syscall.EINTR {
+					break
+				}
+			}
+			close(done)
+			<-buf.Done
+			out["started"], out["wait_status"] = true, int(ws)
+			out["status"] = 0
+			if err == nil && ws.Exited() && ws.ExitStatus() == 0 {
+				out["status"] = 1
+			} else {
+				out["error"] = fmt.Sprintf("wait status %#x (%v)", int(ws), err)
+			}
+			split(buf.Buffer.String())
+			return out
+		}
 		if c["runner"] == "ns" {
 			root, err := os.MkdirTemp(scratch, "nsroot")
 			if err != nil {
@@ -182,17 +280,28 @@ func main() {
 			cancel()
 			buf.W.Close()
 			<-buf.Done
-			out["status"], out["error"], out["probe"] = int(res.Status), res.Error, strings.TrimSpace(buf.Buffer.String())
+			out["status"], out["error"] = int(res.Status), res.Error
+			split(buf.Buffer.String())
 			return out
 		}
-		env, err := hx.NewEnvWith(scratch, nil, func(cb *container.Builder) {
-			cb.Mounts = b.Mounts
-			cb.WorkDir = "/"
-			if c["init_cmd"] == true {
-				cb.Mounts = append(cb.Mounts, mount.Mount{Source: "/dev/null", Target: "dev/null", Flags: unix.MS_BIND})
-				cb.InitCommand = []string{"/vb/probe_target", "exit", "0"}
+		var env container.Environment
+		var err error
+		for try := 0; ; try++ {
+			env, err = hx.NewEnvWith(scratch, nil, func(cb *container.Builder) {
+				cb.Mounts = b.Mounts
+				cb.WorkDir = "/"
+				if c["init_cmd"] == true {
+					cb.Mounts = append(cb.Mounts, mount.Mount{Source: "/dev/null", Target: "dev/null", Flags: unix.MS_BIND})
+					cb.InitCommand = []string{"/vb/probe_target", "exit", "0"}
+				}
+			})
+			// the builder gives the container init 3 seconds to answer the first ping; on a loaded machine that is a matter of speed, not of
+			// the mount table: such a build is tried again (at most twice, counted in the evidence); any other failure is reported as before
+			if err == nil || try >= 2 || !strings.Contains(err.Error(), "i/o timeout") {
+				break
 			}
-		})
+			out["build_retries"] = try + 1
+		}
 		if err != nil {
 			out["build_err"] = err.Error()
 			return out
@@ -214,7 +323,8 @@ func main() {
 		cancel()
 		buf.W.Close()
 		<-buf.Done
-		out["status"], out["error"], out["probe"] = int(res.Status), res.Error, strings.TrimSpace(buf.Buffer.String())
+		out["status"], out["error"] = int(res.Status), res.Error
+		split(buf.Buffer.String())
 		return out
-	})
+	}
 }
